@@ -102,7 +102,8 @@ def string_texts(draw, maxlen=12, plain=False):
         elif c < 24:
             out.append("\\\\")
         elif c < 25:
-            out.append("\\S\\" + draw(st.sampled_from("Aa0~ ")))
+            # page = \S\ character, and `character` includes the apostrophe and the reverse solidus
+            out.append("\\S\\" + draw(st.sampled_from("Aa0~ ''\\")))
         elif c < 26:
             out.append("\\X\\" + draw(st.sampled_from(["E9", "00", "7F", "A0", "FF"])))
         elif c < 27:
@@ -212,6 +213,10 @@ class PopBuilder:
             leaves = s.select_leaves(r[1])
             order = draw(st.permutations(leaves)) if len(leaves) > 1 else leaves
             direct = s.select_direct_members(r[1])
+            nested_leaves = [lf for lf in order if lf not in direct]
+            if nested_leaves and len(nested_leaves) < len(order) and draw(st.integers(0, 99)) < self.cfg.get("p_nested_select_leaf", 35):
+                # values that reach their member through a nested select take another path through the generated STEPread code
+                order = nested_leaves + [lf for lf in order if lf in direct]
             for lf in order:
                 if s.is_entity(lf):
                     c = self.candidates(lf)
